@@ -605,6 +605,13 @@ class Interp:
             return ("const", repr(float(node.value)))
         if isinstance(node, ast.Name):
             ent = frame.get(node.id)
+            if ent is None and node.id in env:
+                # a copy of the scope (comprehensions, closures): the name still holds the object its operation tree describes
+                for fr in self.fterms.values():
+                    e2 = fr.get(node.id)
+                    if e2 is not None and e2[1] is env[node.id]:
+                        ent = e2
+                        break
             if ent is not None and ent[1] is env.get(node.id):
                 return ent[0]
             if node.id in env:
@@ -2006,12 +2013,16 @@ class Interp:
                 off, rest = (lo - pos).expand(), (pos + n - hi).expand()
                 if self.facts.possible(off) <= {"0", "+"} and self.facts.possible(rest) <= {"0", "+"} and self.facts.possible((hi - lo).expand()) <= {"0", "+"}:
                     new_elem = subst_value(x.elem, {x.ivar: alg.atom_expr(x.ivar) + off})
-                    return Tup([GenList(new_elem, x.ivar, RangeV(x.rng.start + off * x.rng.step, x.rng.start + (off + hi - lo) * x.rng.step, x.rng.step))], base.kind)
+                    return Tup([GenList(new_elem, x.ivar, RangeV(x.rng.start, x.rng.start + (hi - lo) * x.rng.step, x.rng.step))], base.kind)  # (the range only carries the count)
             pos = pos + n
         # polynomial bounds in the sizes that differ from every boundary are a definite misalignment (blocks of n_towers entries
         # cut out of a list made of runs of n_steps); bounds that involve rounding or other functions are merely not understood
         plain = all(not any(a.kind in ("fn", "def") for a in x.expand().atoms()) for x in (lo, hi))
-        self.event("misaligned-slice" if plain else "unmodelled-slice", node, "slice [%r:%r] of a list with segment boundaries %r" % (lo, hi, bounds))
+        if not plain:
+            # cut points that are functions of a block index (k * n // B): kept as a symbolic slice; it is resolved when the
+            # blocks are put together again (flatten) or reported as not modelled when anything else is done with it
+            return Opaque("list-slice", {"of": base, "lo": lo, "hi": hi, "where": "%s:%s" % (self.cur_mod.name, node.lineno)})
+        self.event("misaligned-slice", node, "slice [%r:%r] of a list with segment boundaries %r" % (lo, hi, bounds))
         return Unknown("slice [%r:%r] does not coincide with the boundaries of the generated segments" % (lo, hi))
 
     def _const_int(self, node, env, default):
@@ -2038,7 +2049,8 @@ class Interp:
         if not gens:
             return [leaf(env)]
         g = gens[0]
-        it = self.eval(g.iter, env)
+        pre = self.__dict__.pop("_pre_iter", None)
+        it = pre[1] if pre is not None and pre[0] is g.iter else self.eval(g.iter, env)
 
         def conds(e2):
             """True / False when all `if` clauses are decided, None otherwise"""
@@ -2120,7 +2132,87 @@ class Interp:
             return [GenList(leaf(e2), it.ivar, it.rng)]
         return None
 
+    def refold(self, e):
+        """re-evaluate the rounding operations of an expression after a substitution (0 * n // B is 0, B * n // B is n)"""
+        if not isinstance(e, Expr):
+            return e
+        sub = {}
+        for a in e.top_atoms():
+            if a.kind == "fn" and a.name in ("floordiv", "int") and all(isinstance(x, Expr) for x in a.args):
+                args = [self.refold(x) for x in a.args]
+                if a.name == "floordiv":
+                    r = self.floordiv(args[0], args[1])
+                else:
+                    c = args[0].as_const()
+                    r = alg.const(int(c.re)) if c is not None and c.im == 0 else (args[0] if self.np._scalar_dtype(args[0]) == "int" else alg.fn("int", args[0], integer=True))
+                if not r.eq(alg.atom_expr(a)):
+                    sub[a] = r
+        return e.subs(sub).expand() if sub else e
+
+    def _flatten_blocks(self, X, node):
+        """[x for block in X for x in block] where X lists the blocks list[a(k):b(k)], k = 0 .. B-1, of one list: the list
+        itself when the blocks are contiguous (b(k) = a(k+1)), start at 0 and end at its length"""
+        if not (isinstance(X, Tup) and X.kind != "dict" and len(X.items) == 1 and isinstance(X.items[0], GenList)):
+            return None
+        g = X.items[0]
+        sl = g.elem
+        if not (isinstance(sl, Opaque) and sl.name == "list-slice" and g.rng.start.is_zero() and g.rng.step.eq(ONE)):
+            return None
+        a, b, M = sl.attrs["lo"], sl.attrs["hi"], sl.attrs["of"]
+        k = alg.atom_expr(g.ivar)
+        B = g.rng.count
+        nxt = self.refold(a.subs({g.ivar: k + ONE}))
+        if not nxt.eq(self.refold(b)):
+            return Unknown("blocks that are not contiguous: block k ends at %r, block k + 1 starts at %r" % (b, nxt))
+        first = self.refold(a.subs({g.ivar: ZERO}))
+        last = self.refold(b.subs({g.ivar: B - ONE}))
+        total = ZERO
+        for x in M.items:
+            gs = len(x.elem.items) if isinstance(x, GenList) and isinstance(x.elem, Tup) and x.elem.kind == "group" else 1
+            total = total + (x.rng.count * gs if isinstance(x, GenList) else ONE)
+        if not (first.is_zero() and last.eq(total)):
+            self.event("partition-gap", node, "the blocks cover [%r, %r) of a list of %r entries" % (first, last, total))
+            return Unknown("blocks covering [%r, %r) of %r entries" % (first, last, total))
+        # cut points must be exact: a cut computed through a floating point quotient (int(k * (n / B))) can fall one short at
+        # the positions where the exact value is an integer - for k = B that is the end of the list
+        for src in (a, b):
+            for at in src.atoms():
+                if at.kind == "fn" and at.name == "int":
+                    for ev in self.events:
+                        if ev[0] == "rounding" and isinstance(ev[2][0], Expr) and at in ev[2][0].atoms() and "Div" in repr(ev[2][1]):
+                            self.event("fragile-partition", node, "the cut points %s are truncated floating point products: at the last block the exact value %r can be computed as one ulp less, and int() then drops the last entry" % (
+                                self.fterm_str(ev[2][1]), total))
+        return Tup(list(M.items), "list")
+
     def ev_ListComp(self, node, env):
+        gens = node.generators
+        if len(gens) == 1 and not gens[0].ifs and not isinstance(node, ast.DictComp):
+            it0 = self.eval(gens[0].iter, env)
+            if isinstance(it0, Opaque) and it0.name == "list-slice":
+                # mapping commutes with slicing: [f(x) for x in L[a:b]] is [f(x) for x in L][a:b]
+                M = it0.attrs["of"]
+                out = []
+                for x in M.items:
+                    e2 = dict(env)
+                    if isinstance(x, GenList) and not (isinstance(x.elem, Tup) and x.elem.kind == "group"):
+                        self.assign(gens[0].target, x.elem, e2)
+                        out.append(GenList(self.eval(node.elt, e2), x.ivar, x.rng))
+                    elif not isinstance(x, GenList):
+                        self.assign(gens[0].target, x, e2)
+                        out.append(self.eval(node.elt, e2))
+                    else:
+                        return Unknown("comprehension over a slice of grouped entries")
+                return Opaque("list-slice", {"of": Tup(out, "list"), "lo": it0.attrs["lo"], "hi": it0.attrs["hi"], "where": it0.attrs.get("where")})
+            self._pre_iter = (gens[0].iter, it0)
+        if (len(gens) == 2 and not gens[0].ifs and not gens[1].ifs and isinstance(gens[0].target, ast.Name) and isinstance(gens[1].iter, ast.Name)
+                and gens[1].iter.id == gens[0].target.id and isinstance(gens[1].target, ast.Name) and isinstance(node.elt, ast.Name) and node.elt.id == gens[1].target.id):
+            X = self.eval(gens[0].iter, env)
+            if isinstance(X, Tup) and X.kind == "iterator":
+                X = self.np.consume(X)
+            r = self._flatten_blocks(X, node)
+            if r is not None:
+                return r
+            self._pre_iter = (gens[0].iter, X)
         items = self._comp_items(node.generators, env, lambda e2: self.eval(node.elt, e2))
         if items is None:
             return Unknown("comprehension")
